@@ -10,7 +10,7 @@ vectors `List Bool`, the abstraction `abs`, and the representation invariant
 Every theorem below is for all arrays of all sizes (no bound), nil included
 (`none`, standing for the empty vector).
 -/
-import GnoVerif.Proofs.C48Top
+import GnoVerif.Proofs.C48Varint
 namespace GnoVerif.C48
 
 /-! ## BitArray: the invariant is established and preserved by every operation,
@@ -203,6 +203,116 @@ theorem json_roundtrip (a : BitArray) (h : WF a) :
     obtain ⟨b', h1, h2, h3⟩ := unmarshalJSON_specJSON b.abs
     rw [h1, h2.abs_inj h h3]; rfl
 
+/-! ## CompactBitArray (byte-packed, most significant bit first)
+
+`CWF`: consistent fields (`ExtraBitsStored < 8`, and non-zero only with a byte to
+live in) — what `NewCompactBitArray` and the decoders of genuine encodings
+produce.  `Canon` adds: no stray bits after `Size()` in the last byte. -/
+
+/-- NewCompactBitArray(n): nil exactly for `n ≤ 0`, else `n` false bits, canonical. -/
+theorem cnew_spec (n : Int) :
+    CWF (newCompact n) ∧ (∀ c, newCompact n = some c → c.Canon) ∧
+      cabs (newCompact n) = List.replicate n.toNat false ∧ (newCompact n = none ↔ n ≤ 0) :=
+  newCompact_spec n
+
+/-- Size is the length of the vector (never negative on consistent fields). -/
+theorem csize_eq_length (c : Compact) (h : CWF c) : csize c = ((cabs c).length : Int) := by
+  cases c with
+  | none => rfl
+  | some c =>
+    simp only [csize, cabs, length_cabs]
+    have := h.size_nonneg
+    omega
+
+/-- GetIndex(i) is element `i`; false for negative `i` and past the end. -/
+theorem cgetIndex_abs (c : Compact) (h : CWF c) (i : Int) :
+    cgetIndex c i = (decide (0 ≤ i) && bget (cabs c) i.toNat) := by
+  cases c with
+  | none => simp [cgetIndex, cabs]
+  | some c => exact c.getIndex_spec h i
+
+/-- SetIndex(i, v) reports whether `0 ≤ i < Size()`, writes element `i` only, keeps the
+fields consistent (and canonical if they were). -/
+theorem csetIndex_spec (c : CBA) (h : c.WF) (i : Int) (v : Bool) :
+    (c.setIndex i v).1.WF ∧ (c.setIndex i v).2 = decide (0 ≤ i ∧ i < c.size) ∧
+    (c.setIndex i v).1.abs = (if 0 ≤ i then c.abs.set i.toNat v else c.abs) ∧
+    (c.Canon → (c.setIndex i v).1.Canon) :=
+  c.setIndex_full h i v
+
+/-- SetIndex on nil does nothing and says so. -/
+theorem csetIndex_nil (i : Int) (v : Bool) : csetIndex none i v = (none, false) := rfl
+
+/-- NumTrueBitsBefore(k) counts the true elements among the first `k`. -/
+theorem numTrueBitsBefore_spec (c : Compact) (h : CWF c) (k : Int) :
+    numTrueBitsBefore c k = ((cabs c).take k.toNat).count true := by
+  unfold numTrueBitsBefore
+  rw [← countP_range_bget]
+  apply List.countP_congr
+  intro i _
+  rw [cgetIndex_abs c h]
+  simp
+
+/-- Copy returns an equal array. -/
+theorem ccopy_eq (c : Compact) : ccopy c = c := by
+  cases c with
+  | none => rfl
+  | some c => simp [ccopy, goCopy_self_zero]
+
+/-- MarshalJSON: `null` for nil, the quoted x/_ string of the vector otherwise. -/
+theorem cmarshalJSON_spec (c : Compact) (h : CWF c) :
+    cmarshalJSON c = match c with
+      | none => nullBytes
+      | some c => specJSON c.abs := by
+  cases c with
+  | none => rfl
+  | some c => exact cmarshalJSON_some_spec c h
+
+/-- Whatever UnmarshalJSON accepts has consistent fields and no stray bits. -/
+theorem cunmarshalJSON_canonical (bz : List Byte) (c : CBA) (h : cunmarshalJSON bz = .ok c) :
+    c.Canon :=
+  cunmarshalJSON_canon bz c h
+
+/-- Decoding the JSON form of any vector (the empty one included — the case that
+dereferenced nil before the fix) yields an array standing for that vector. -/
+theorem cunmarshalJSON_decodes (v : List Bool) :
+    ∃ c, cunmarshalJSON (specJSON v) = .ok c ∧ c.Canon ∧ c.abs = v :=
+  cunmarshalJSON_specJSON v
+
+/-- JSON round trip: the decoded array stands for the same vector, and is the very
+same array when the original had no stray bits in its last byte. -/
+theorem cjson_roundtrip (c : CBA) (h : c.WF) :
+    ∃ c', cunmarshalJSON (cmarshalJSON (some c)) = .ok c' ∧ c'.Canon ∧ c'.abs = c.abs ∧
+      (c.Canon → c' = c) := by
+  rw [cmarshalJSON_some_spec c h]
+  obtain ⟨c', h1, h2, h3⟩ := cunmarshalJSON_specJSON c.abs
+  exact ⟨c', h1, h2, h3, fun hc => h2.abs_inj hc h3⟩
+
+/-- JSON round trip of nil: `null` decodes to the empty non-nil array. -/
+theorem cjson_roundtrip_nil : cunmarshalJSON (cmarshalJSON none) = .ok ⟨0, []⟩ := rfl
+
+/-- Binary round trip (CompactMarshal / CompactUnmarshal): an array with consistent
+fields and at least one bit comes back identical, bytes and all.  `hfit` only says the
+bit count plus 7 fits Go's `int` (true of anything that fits in memory). -/
+theorem compact_roundtrip (c : CBA) (h : c.WF) (hpos : 0 < c.size) (hfit : c.size + 7 < 2 ^ 63) :
+    compactUnmarshal (compactMarshal (some c)) = .ok (some c) :=
+  compact_roundtrip_pos c h hpos hfit
+
+/-- Binary round trip of nil and of empty arrays: encoded as `null`, decoded as nil —
+the same (empty) vector. -/
+theorem compact_roundtrip_empty (c : Compact) (h : csize c ≤ 0) :
+    compactUnmarshal (compactMarshal c) = .ok none ∧ (CWF c → cabs c = []) := by
+  constructor
+  · simp only [compactMarshal, h, if_true]
+    rfl
+  · intro hw
+    cases c with
+    | none => rfl
+    | some c =>
+      simp only [csize] at h
+      simp only [cabs, CBA.abs]
+      have : c.size.toNat = 0 := by omega
+      rw [this]; rfl
+
 /-! ## Non-vacuity: concrete well-formed arrays, and the witnesses of the fixed defects -/
 
 /-- a 70-bit array with bits 0, 2 and 69 set is well-formed -/
@@ -224,5 +334,24 @@ example : (match or (newBitArray 64) (setIndex (newBitArray 128) 100 true).1 wit
 
 /-- the old Update bug: a longer source leaves no padding bits behind -/
 example : update (newBitArray 3) (some ⟨5, [0x8]⟩) = some ⟨3, [0]⟩ := by decide
+
+/-- a canonical 11-bit compact array with bits 0 and 10 set -/
+example : (newCompact 11).bind (fun c => some ((c.setIndex 0 true).1.setIndex 10 true).1)
+    = some ⟨3, [0x80, 0x20]⟩ := by decide
+
+example : ∀ c, newCompact 11 = some c → ((c.setIndex 0 true).1.setIndex 10 true).1.Canon :=
+  fun c hc =>
+    have h0 := (cnew_spec 11).2.1 c hc
+    have h1 := csetIndex_spec c h0.1 0 true
+    (csetIndex_spec _ h1.1 10 true).2.2.2 (h1.2.2.2 h0)
+
+/-- the hypotheses of `compact_roundtrip` on that array; its encoding is uvarint(11)
+followed by the two bytes -/
+example : compactUnmarshal (compactMarshal (some ⟨3, [0x80, 0x20]⟩)) = .ok (some ⟨3, [0x80, 0x20]⟩) :=
+  compact_roundtrip _ (wf_of_shape _ 11 (by omega) rfl rfl) (by decide) (by decide)
+example : compactUnmarshal [0x0b, 0x80, 0x20] = .ok (some ⟨3, [0x80, 0x20]⟩) := by decide
+
+/-- the fixed CompactBitArray JSON defect: `""` decodes (to the empty array) -/
+example : cunmarshalJSON [0x22, 0x22] = .ok ⟨0, []⟩ := by decide
 
 end GnoVerif.C48
